@@ -24,7 +24,9 @@ import (
 	wasmvmtypes "github.com/CosmWasm/wasmvm/v2/types"
 	sdk "github.com/cosmos/cosmos-sdk/types"
 	"github.com/cosmos/gogoproto/proto"
+	consensustypes "github.com/palomachain/paloma/v2/x/consensus/types"
 	skywaytypes "github.com/palomachain/paloma/v2/x/skyway/types"
+	tftypes "github.com/palomachain/paloma/v2/x/tokenfactory/types"
 	"github.com/palomachain/paloma/v2/zzverif/report"
 	"github.com/palomachain/paloma/v2/zzverif/world"
 )
@@ -41,9 +43,28 @@ func main() {
 // caseSpec identifies one delivery.
 type caseSpec struct {
 	Type    string            `json:"type"`
-	Variant string            `json:"variant"` // plain | grant
+	Variant string            `json:"variant"` // plain | grant | wasm
 	SigVar  string            `json:"sigvar,omitempty"`
 	Assign  map[string]string `json:"assign"` // leaf path -> actor name
+	// Attacker: the only signer. "" = A (plain account); "V" = a bonded validator
+	// with registered chain accounts (w.Vals[1]); the wasm variant uses contract C.
+	Attacker string `json:"attacker,omitempty"`
+	// Pos: "" = the forged message is the only message of the tx; "second" /
+	// "third" = it follows one / two harmless messages created and signed by the
+	// attacker in the same tx; "first" = it precedes one (control).
+	Pos string `json:"pos,omitempty"`
+}
+
+func (c caseSpec) with(path, actor string) caseSpec {
+	n := c
+	n.Assign = map[string]string{}
+	for k, v := range c.Assign {
+		n.Assign[k] = v
+	}
+	if path != "" {
+		n.Assign[path] = actor
+	}
+	return n
 }
 
 func (c caseSpec) String() string {
@@ -54,6 +75,12 @@ func (c caseSpec) String() string {
 	sort.Strings(ks)
 	var sb strings.Builder
 	sb.WriteString(shortType(c.Type) + "[" + c.Variant)
+	if c.Attacker != "" {
+		sb.WriteString(",attacker=" + c.Attacker)
+	}
+	if c.Pos != "" {
+		sb.WriteString(",pos=" + c.Pos)
+	}
 	if c.SigVar != "" {
 		sb.WriteString(",sig=" + c.SigVar)
 	}
@@ -78,21 +105,41 @@ type sigVariant struct {
 	Apply func(e *env, m sdk.Msg)
 }
 
-func (e *env) variantsOf(url string) []sigVariant {
-	if url != "/palomachain.paloma.skyway.MsgConfirmBatch" {
-		return []sigVariant{{Name: ""}}
+// ethKeyOf returns the external-chain key of an attacker: A's is registered
+// nowhere, V's is its registered chain account.
+func (e *env) ethKeyOf(attacker string) *world.Val {
+	if attacker == "V" {
+		return e.w.Vals[1]
 	}
-	av := world.NewVal("A", sdkmath.ZeroInt())
-	return []sigVariant{
-		{Name: "valid", Apply: func(e *env, m sdk.Msg) {}},
-		{Name: "attacker-key", Apply: func(e *env, m sdk.Msg) {
-			m.(*skywaytypes.MsgConfirmBatch).Signature = world.SignCheckpoint(av, e.cp2)
-		}},
-		{Name: "other-item", Apply: func(e *env, m sdk.Msg) {
-			// B's genuine signature, but over batch 1: not "the exact item"
-			m.(*skywaytypes.MsgConfirmBatch).Signature = world.SignCheckpoint(e.w.Vals[0], e.cp1)
-		}},
+	return world.NewVal("A", sdkmath.ZeroInt())
+}
+
+// variantsOf: messages carrying an external-chain signature are enumerated with
+// B's genuine signature (the template), the attacker's own signature over the
+// same item and, for batch confirmations, B's genuine signature over another item.
+func (e *env) variantsOf(url, attacker string) []sigVariant {
+	av := e.ethKeyOf(attacker)
+	switch url {
+	case "/palomachain.paloma.skyway.MsgConfirmBatch":
+		return []sigVariant{
+			{Name: "valid", Apply: func(e *env, m sdk.Msg) {}},
+			{Name: "attacker-key", Apply: func(e *env, m sdk.Msg) {
+				m.(*skywaytypes.MsgConfirmBatch).Signature = world.SignCheckpoint(av, e.cp2)
+			}},
+			{Name: "other-item", Apply: func(e *env, m sdk.Msg) {
+				// B's genuine signature, but over batch 1: not "the exact item"
+				m.(*skywaytypes.MsgConfirmBatch).Signature = world.SignCheckpoint(e.w.Vals[0], e.cp1)
+			}},
+		}
+	case "/palomachain.paloma.consensus.MsgAddMessagesSignatures":
+		return []sigVariant{
+			{Name: "valid", Apply: func(e *env, m sdk.Msg) {}},
+			{Name: "attacker-key", Apply: func(e *env, m sdk.Msg) {
+				m.(*consensustypes.MsgAddMessagesSignatures).SignedMessages[0].Signature = e.signQueued(e.rootPlain, av, e.msgFresh)
+			}},
+		}
 	}
+	return []sigVariant{{Name: ""}}
 }
 
 type checker struct {
@@ -102,14 +149,16 @@ type checker struct {
 	fields map[string][]idField
 	before map[string]projection
 	// counters
-	stage         map[string]int
-	accepted      int
-	changedA      int
-	unattrib      map[string]int
-	exempted      map[string]int
-	deliveries    int
-	wasmForgeable map[string]bool
-	panics        []string
+	stage          map[string]int
+	accepted       int
+	changedA       int
+	unattrib       map[string]int
+	exempted       map[string]int
+	deliveries     int
+	wasmForgeable  map[string]bool
+	panics         []string
+	acceptedBy     map[string]float64
+	multiForgeable map[string]bool
 }
 
 func run(r *report.Run, replayFile string, dump bool) {
@@ -119,14 +168,15 @@ func run(r *report.Run, replayFile string, dump bool) {
 	e.principals = []*principal{
 		mkPrincipal(e.B, []byte(sdk.ConsAddress(e.w.Vals[0].Cons.PubKey().Address()))),
 		mkPrincipal(e.U), mkPrincipal(e.G), mkPrincipal(e.L), mkPrincipal(e.M), mkPrincipal(e.A), mkPrincipal(e.C),
+		mkPrincipal(e.V, []byte(sdk.ConsAddress(e.w.Vals[1].Cons.PubKey().Address()))),
 	}
 	c := &checker{e: e, r: r, tmpls: e.templates(), fields: map[string][]idField{}, before: map[string]projection{},
-		wasmForgeable: map[string]bool{}, stage: map[string]int{}, unattrib: map[string]int{}, exempted: map[string]int{}}
+		wasmForgeable: map[string]bool{}, acceptedBy: map[string]float64{}, multiForgeable: map[string]bool{}, stage: map[string]int{}, unattrib: map[string]int{}, exempted: map[string]int{}}
 	if dump {
 		c.dump()
 		return
 	}
-	r.Rule = "for every palomachain.paloma.* sdk.Msg type in the interface registry: a template valid in the prepared world (3 validators, active chain, B's keep-alive / chain account / relayer fee / bridge vote / batch estimate+confirm / message signature+estimate+evidence+delivery report, U's pooled transfer / batches / job / denoms / user contract, M's pending licence, governance settings incl. a compass deployment in flight); every assignment of {A,B,U,G,L} to every identity-bearing leaf (string/bytes leaf equal to an acc-bech32 / valoper-bech32 / raw / eth encoding of an actor) and to metadata.creator, signers=[A], really signed by A and delivered through ante + router; MsgConfirmBatch additionally with {B's valid signature, attacker-key signature, B's signature over another batch}; everything repeated with a fee grant B->A; thorough tier additionally delivers the same product the way x/wasm delivers a contract's CosmosMsg::Any (wasmd SDKMessageHandler: signers == contract address, no ante). Oracle: projection of all records attributed to B,U,G,L,M before/after"
+	r.Rule = "for every palomachain.paloma.* sdk.Msg type in the interface registry: a template valid in the prepared world (3 validators, active chain, B's keep-alive / chain account / relayer fee / bridge vote / batch estimate+confirm / message signature+estimate+evidence+delivery report, U's pooled transfer / batches / job / denoms / user contract, M's pending licence, governance settings incl. a compass deployment in flight); every assignment of {A,B,U,G,L} to every identity-bearing leaf (string/bytes leaf equal to an acc-bech32 / valoper-bech32 / raw / eth encoding of an actor) and to metadata.creator, signers=[attacker], really signed by the attacker (A, a plain account) and delivered through ante + router; MsgConfirmBatch additionally with {B's valid signature, attacker-key signature, B's signature over another batch}; everything repeated with a fee grant B->A; the product again with the forged message as SECOND message of a tx whose first message is a harmless denom creation by the attacker (third position and forged-first control: one case per actor with all leaves set to it; full products in the thorough tier); the product again with a second attacker V that is itself a bonded validator with registered chain accounts (w.Vals[1]: signer, creator candidate, own external-chain key and valid signatures; signature-carrying messages MsgConfirmBatch / MsgAddMessagesSignatures with {B's, attacker's own} signature); thorough tier additionally delivers the same product the way x/wasm delivers a contract's CosmosMsg::Any (wasmd SDKMessageHandler: signers == contract address, no ante). Oracle: projection of all records attributed to B,U,G,L,M before/after"
 	r.Assumptions = []string{
 		"attribution: a record belongs to a principal when its key or value contains the principal's account bytes, account bech32, operator bech32, consensus address (B) or external-chain address (raw or hex, any case); governance owns the params stores and an explicit list of setting families (chain infos, compass contracts and deployments, bridge tax / limits, sale contracts, observed-nonce cursor, pigeon requirements, light-node feegranter/funders)",
 		"a denom string factory/<address>/<sub> mentions its creator; outside the denom-owned families (tokenfactory records, bank denom metadata and supply, skyway denom<->erc20 mappings) such a mention does not attribute a record (e.g. A's own pooled transfer of U's token)",
@@ -138,13 +188,15 @@ func run(r *report.Run, replayFile string, dump bool) {
 		"MsgConfirmBatch carrying B's own external-chain signature over the exact checkpoint of that batch may add B's confirmation for that batch (property text); any other signature may not",
 		"MsgSetLegacyLightNodeClients is a parameterless migration trigger; the prepared world has no light-node feegranter so it is a no-op here",
 		"message types registered as sdk.Msg without a router handler cannot be delivered (baseapp refuses them) and are listed as unroutable",
+		"multi-message transactions: the harmless companion messages are tokenfactory MsgCreateDenom in the attacker's own namespace (they only create records keyed by the attacker); a violation that needs the companion (the forged message alone is refused) is keyed multimsg:*, otherwise the single-message signature is reported",
+		"validator attacker V: its own records (keyed by V, or parts of split values carrying V's operator address) are its own; violations found with V carry the suffix :by-validator",
 		"Any-typed sub-messages (evidence proofs, bad-signature subjects) are not searched for identities",
 		"wasm extension: the contract path is reproduced with wasmd's exported SDKMessageHandler over the application's router and codec (the application's own messenger instance is unexported); the custom-binding messengers are not exercised; contract C is modelled as an account with a classic contract address",
 	}
 	for s, why := range excludedStores {
 		r.Assumptions = append(r.Assumptions, "store "+s+" not projected: "+why)
 	}
-	sort.Strings(r.Assumptions[12:])
+	sort.Strings(r.Assumptions[14:])
 
 	if replayFile != "" {
 		c.replay(replayFile)
@@ -180,17 +232,22 @@ func (c *checker) types() (routable, unroutable, untemplated []string) {
 	return
 }
 
-func (c *checker) attacker(variant string) *actor {
-	if variant == "wasm" {
+func (c *checker) attacker(cs caseSpec) *actor {
+	switch {
+	case cs.Variant == "wasm":
 		return c.e.C
+	case cs.Attacker == "V":
+		return c.e.V
 	}
 	return c.e.A
 }
 
 // actorsOf: the identities written into messages; the first is the attacker.
-func (c *checker) actorsOf(variant string) []*actor {
-	return append([]*actor{c.attacker(variant)}, c.e.actors[1:]...)
+func (c *checker) actorsOf(cs caseSpec) []*actor {
+	return append([]*actor{c.attacker(cs)}, c.e.actors[1:]...)
 }
+
+func isAttacker(name string) bool { return name == "A" || name == "C" || name == "V" }
 
 func (c *checker) root(variant string) sdk.Context {
 	if variant == "grant" {
@@ -242,8 +299,8 @@ func (c *checker) build(cs caseSpec) sdk.Msg {
 		}
 	}
 	// the attacker is the only signer
-	assign(msg, idField{Path: "Metadata.Signers[0]", Kind: kAcc}, c.attacker(cs.Variant))
-	for _, v := range c.e.variantsOf(cs.Type) {
+	assign(msg, idField{Path: "Metadata.Signers[0]", Kind: kAcc}, c.attacker(cs))
+	for _, v := range c.e.variantsOf(cs.Type, cs.Attacker) {
 		if v.Name == cs.SigVar && v.Apply != nil {
 			v.Apply(c.e, msg)
 		}
@@ -265,7 +322,17 @@ func (c *checker) deliver(cs caseSpec) outcome {
 	if cs.Variant == "wasm" {
 		res = c.dispatchFromContract(ctx, msg)
 	} else {
-		res = c.e.w.DeliverTx(ctx, []*world.Actor{c.e.keys["A"]}, msg)
+		att := c.attacker(cs)
+		msgs := []sdk.Msg{msg}
+		switch cs.Pos {
+		case "second":
+			msgs = []sdk.Msg{c.harmless(att, 1), msg}
+		case "third":
+			msgs = []sdk.Msg{c.harmless(att, 1), c.harmless(att, 2), msg}
+		case "first":
+			msgs = []sdk.Msg{msg, c.harmless(att, 1)}
+		}
+		res = c.e.w.DeliverTx(ctx, []*world.Actor{c.e.keys[att.Name]}, msgs...)
 	}
 	c.deliveries++
 	after := c.e.project(ctx)
@@ -283,6 +350,12 @@ func (c *checker) deliver(cs caseSpec) outcome {
 	o := outcome{Res: res}
 	o.Viol, o.Changed, o.OwnA = c.judge(before, after, free, allow)
 	return o
+}
+
+// harmless is a message the attacker is fully entitled to send: a denom in its
+// own namespace, created and signed by itself.
+func (c *checker) harmless(att *actor, i int) sdk.Msg {
+	return &tftypes.MsgCreateDenom{Subdenom: fmt.Sprintf("harmless%d", i), Metadata: meta(att.Acc.String(), att.Acc.String())}
 }
 
 // dispatchFromContract delivers msg the way x/wasm delivers a CosmosMsg::Any
@@ -419,7 +492,7 @@ func (c *checker) judge(before, after projection, free map[string]bool, allow fu
 			}
 			viol = append(viol, *ch)
 		}
-		if ob["A"] || oa["A"] || ob["C"] || oa["C"] {
+		if ob["A"] || oa["A"] || ob["C"] || oa["C"] || ob["V"] || oa["V"] {
 			ownA++
 			attributed = true
 		}
@@ -482,7 +555,16 @@ func errClass(res world.TxResult) string {
 
 func (c *checker) describe(cs caseSpec, o outcome) string {
 	var sb strings.Builder
-	by := "signed by A only"
+	att := c.attacker(cs)
+	by := "signed by " + att.Name + " only (" + att.Role + ")"
+	switch cs.Pos {
+	case "second":
+		by += "; tx = [harmless denom creation by " + att.Name + ", this message]"
+	case "third":
+		by += "; tx = [harmless denom creation by " + att.Name + ", another one, this message]"
+	case "first":
+		by += "; tx = [this message, harmless denom creation by " + att.Name + "]"
+	}
 	if cs.Variant == "wasm" {
 		by = "dispatched as CosmosMsg::Any by contract C (signers=[C], no ante)"
 	}
@@ -521,16 +603,12 @@ func (c *checker) shrink(cs caseSpec, o outcome) (caseSpec, outcome) {
 		paths = append(paths, p)
 	}
 	sort.Strings(paths)
-	att := c.attacker(cs.Variant).Name
+	att := c.attacker(cs).Name
 	for _, p := range paths {
 		if cs.Assign[p] == att {
 			continue
 		}
-		try := caseSpec{Type: cs.Type, Variant: cs.Variant, SigVar: cs.SigVar, Assign: map[string]string{}}
-		for k, v := range cs.Assign {
-			try.Assign[k] = v
-		}
-		try.Assign[p] = att
+		try := cs.with(p, att)
 		if o2 := c.deliver(try); len(o2.Viol) > 0 && victims(o2.Viol) == want {
 			cs, o = try, o2
 		}
@@ -543,7 +621,7 @@ func (c *checker) shrink(cs caseSpec, o outcome) (caseSpec, outcome) {
 func (c *checker) signature(cs caseSpec, o outcome) string {
 	var fs []string
 	for p, a := range cs.Assign {
-		if a != c.attacker(cs.Variant).Name {
+		if a != c.attacker(cs).Name {
 			fs = append(fs, p)
 		}
 	}
@@ -561,6 +639,18 @@ func (c *checker) signature(cs caseSpec, o outcome) string {
 	if cs.SigVar != "" && cs.SigVar != "valid" {
 		s += ":sig=" + cs.SigVar
 	}
+	if cs.Attacker == "V" {
+		s += ":by-validator"
+	}
+	if cs.Pos != "" {
+		// the same message alone is authorised correctly (otherwise the single-message
+		// signature is used, see evalCase): the defect is not in the message's handler
+		// but in how a multi-message transaction is authorised - one site, one signature
+		if cs.Pos == "first" {
+			return "multimsg:first-message-unauthorised"
+		}
+		return "multimsg:later-message-unauthorised"
+	}
 	return s
 }
 
@@ -572,27 +662,39 @@ func (c *checker) evalCase(cs caseSpec) {
 	}
 	if o.Res.OK() {
 		c.accepted++
+		c.acceptedBy[cs.Variant+",attacker="+c.attacker(cs).Name+",pos="+cs.Pos]++
 	}
 	if o.OwnA > 0 {
 		c.changedA++
 	}
 	key := ""
 	if o.Res.OK() || len(o.Changed) > 0 {
-		key = cs.Type + "|" + cs.Variant + "|" + errClass(o.Res) + "|" + strings.Join(o.Changed, ",")
+		key = cs.Type + "|" + cs.Variant + "|" + cs.Attacker + "|" + cs.Pos + "|" + errClass(o.Res) + "|" + strings.Join(o.Changed, ",")
 	} else {
-		key = cs.Type + "|" + errClass(o.Res)
+		key = cs.Type + "|" + cs.Attacker + "|" + cs.Pos + "|" + errClass(o.Res)
 	}
 	c.r.Case(key)
 	if len(o.Viol) > 0 {
 		min, mo := c.shrink(cs, o)
+		if min.Pos != "" {
+			// does the message alone do the same? then it is the single-message defect
+			single := min
+			single.Pos = ""
+			if so := c.deliver(single); len(so.Viol) > 0 {
+				min, mo = single, so
+			}
+		}
 		sig := c.signature(min, mo)
 		c.r.Violate(sig, c.describe(min, mo), min)
+		if min.Pos != "" {
+			c.multiForgeable[shortType(cs.Type)] = true
+		}
 		if cs.Variant == "wasm" {
 			c.wasmForgeable[shortType(cs.Type)] = true
 		}
 	}
 	// the fee grant must be honoured for the plain "act for B" case
-	if cs.Variant == "grant" && o.Res.Stage == "ante" {
+	if cs.Variant == "grant" && cs.Pos == "" && o.Res.Stage == "ante" {
 		allOrig := true
 		for _, f := range c.idFields(cs.Type) {
 			if cs.Assign[f.Path] != f.Orig {
@@ -631,38 +733,74 @@ func (c *checker) enumerate() {
 	r.Extra["templates_accepted_from_legitimate_principal"] = float64(valid)
 	r.Extra["templates_rejected_from_legitimate_principal"] = invalid
 
-	variants := []string{"plain", "grant"}
-	if r.Thorough() {
-		variants = append(variants, "wasm")
+	// plans: (attacker, variant, position of the forged message in the tx, product)
+	// diag = every identity leaf set to the same actor (one case per actor) instead
+	// of the full product
+	type plan struct {
+		attacker, variant, pos string
+		diag                   bool
+	}
+	th := r.Thorough()
+	plans := []plan{
+		{"", "plain", "", false},
+		{"", "grant", "", false},
+		{"", "plain", "second", false},
+		{"", "plain", "third", !th},
+		{"", "plain", "first", !th},
+		{"V", "plain", "", false},
+		{"V", "plain", "second", !th},
+	}
+	if th {
+		plans = append(plans,
+			plan{"", "wasm", "", false},
+			plan{"", "grant", "second", false},
+			plan{"V", "plain", "third", true},
+		)
 	}
 	deadline := r.Deadline(150*time.Second, 25*time.Minute)
 	fieldReport := map[string][]string{}
-	total := 0
+	perPlan := map[string]float64{}
 	for _, url := range routable {
 		fs := c.idFields(url)
 		for _, f := range fs {
 			fieldReport[shortType(url)] = append(fieldReport[shortType(url)], f.Path+":"+f.Kind)
 		}
-		for _, variant := range variants {
-			for _, sv := range c.e.variantsOf(url) {
-				acts := c.actorsOf(variant)
+		for _, pl := range plans {
+			for _, sv := range c.e.variantsOf(url, pl.attacker) {
+				proto := caseSpec{Type: url, Variant: pl.variant, SigVar: sv.Name, Attacker: pl.attacker, Pos: pl.pos}
+				acts := c.actorsOf(proto)
 				n := 1
-				for range fs {
-					n *= len(acts)
+				if pl.diag {
+					n = len(acts)
+				} else {
+					for range fs {
+						n *= len(acts)
+					}
 				}
 				for i := 0; i < n; i++ {
 					if time.Now().After(deadline) {
 						r.Cap("deadline")
 						goto done
 					}
-					cs := caseSpec{Type: url, Variant: variant, SigVar: sv.Name, Assign: map[string]string{}}
+					cs := proto.with("", "")
 					x := i
 					for _, f := range fs {
+						if pl.diag {
+							cs.Assign[f.Path] = acts[i].Name
+							continue
+						}
 						cs.Assign[f.Path] = acts[x%len(acts)].Name
 						x /= len(acts)
 					}
 					c.evalCase(cs)
-					total++
+					name := pl.variant
+					if pl.attacker != "" {
+						name += ",attacker=" + pl.attacker
+					}
+					if pl.pos != "" {
+						name += ",pos=" + pl.pos
+					}
+					perPlan[name]++
 				}
 			}
 		}
@@ -670,6 +808,8 @@ func (c *checker) enumerate() {
 done:
 	r.Extra["identity_fields"] = fieldReport
 	r.Extra["deliveries"] = float64(c.deliveries)
+	r.Extra["cases_per_plan"] = perPlan
+	r.Extra["accepted_per_plan"] = c.acceptedBy
 	r.Extra["accepted"] = float64(c.accepted)
 	r.Extra["deliveries_changing_attackers_own_records"] = float64(c.changedA)
 	st := map[string]float64{}
@@ -684,6 +824,14 @@ done:
 	r.Extra["exemptions_used"] = c.exempted
 	if len(c.panics) > 0 {
 		r.Extra["handler_panics_recovered"] = c.panics
+	}
+	if len(c.multiForgeable) > 0 {
+		var ts []string
+		for t := range c.multiForgeable {
+			ts = append(ts, t)
+		}
+		sort.Strings(ts)
+		r.Extra["multimsg_message_types_forgeable_only_inside_a_multi_message_tx"] = ts
 	}
 	if len(c.wasmForgeable) > 0 {
 		var ts []string
